@@ -411,7 +411,7 @@ impl Dom for Exact {
                 v += m[i][j] * p[j].v;
                 if em != 0.0 {
                     maj += em * p[j].maj;
-                    g = g.max(eg + p[j].g);
+                    g = g.max(eg.saturating_add(p[j].g));
                 }
             }
             let (tm, tg) = self.entry(m[i][3]);
@@ -454,7 +454,7 @@ impl Dom for Exact {
                             let r = acc[k][j];
                             if l.0 != 0.0 && r.0 != 0.0 {
                                 maj += l.0 * r.0;
-                                g = g.max(l.1 + r.1);
+                                g = g.max(l.1.saturating_add(r.1));
                             }
                         }
                         self.cert(maj, g);
@@ -470,7 +470,7 @@ impl Dom for Exact {
                         for j in 0..3 {
                             if row[j].0 != 0.0 {
                                 maj += row[j].0 * p[j].maj;
-                                g = g.max(row[j].1 + p[j].g);
+                                g = g.max(row[j].1.saturating_add(p[j].g));
                             }
                         }
                         self.cert(maj, g);
